@@ -62,7 +62,7 @@ def PlayerState.pawns (occupancy : List UInt64) : Option UInt64 := do
 * `occupancy` = field `self.occupancy: Vec<u64>`
 * `piece` = parameter `piece: u64`
 `none` = panic (or out of fuel). -/
-def PlayerState.occupancy (occupancy : List UInt64) (piece : UInt64) : Option UInt64 := do
+def PlayerState.occupancy_fn (occupancy : List UInt64) (piece : UInt64) : Option UInt64 := do
   vecIdx occupancy (cast .usize (u64ToInt piece))
 
 /-- `const fn full_occupancy(&self) -> OccupancyBits` in `impl PlayerState` (board/src/board.rs:189).
